@@ -32,6 +32,42 @@ func init() {
 
 const modelingPath = load.Module + "/modeling"
 
+// onlyFromParams: v is (derived by slicing / joins from) parameters only.
+func onlyFromParams(v ssa.Value, depth int) bool {
+	if depth > 8 {
+		return false
+	}
+	switch x := v.(type) {
+	case *ssa.Parameter, *ssa.FreeVar:
+		return true
+	case *ssa.Slice:
+		return onlyFromParams(x.X, depth+1)
+	case *ssa.ChangeType:
+		return onlyFromParams(x.X, depth+1)
+	case *ssa.Phi:
+		for _, e := range x.Edges {
+			if !onlyFromParams(e, depth+1) {
+				return false
+			}
+		}
+		return true
+	case *ssa.Call:
+		if ssau.Builtin(x) == "append" && len(x.Call.Args) > 0 {
+			return onlyFromParams(x.Call.Args[0], depth+1)
+		}
+	case *ssa.UnOp:
+		if a, ok := x.X.(*ssa.Alloc); ok {
+			for _, r := range ssau.Refs(a) {
+				if st, ok := r.(*ssa.Store); ok && st.Addr == a && !onlyFromParams(st.Val, depth+1) {
+					return false
+				}
+			}
+			return true
+		}
+	}
+	return false
+}
+
 func relPkg(path string) string {
 	return strings.TrimPrefix(strings.TrimPrefix(path, load.Module), "/")
 }
@@ -178,7 +214,13 @@ func run(c *props.Ctx) {
 			case eng.Fresh:
 				c.R.Hold("OWN-1", construct, pos, "writes "+s.Base.Name()+": Fresh ("+s.Why+")")
 			case eng.Bot:
-				c.R.Hold("OWN-1", construct, pos, "operand never bound to a value in the analysed code (no caller)")
+				if onlyFromParams(s.Base, 0) {
+					c.R.Hold("OWN-1", construct, pos, "operand never bound to a value in the analysed code (parameter of a function without callers)")
+				} else {
+					// a value the analysis gave no class at all (e.g. the result of a call it did not model) is
+					// not evidence of freshness
+					c.R.Undecide("OWN-1", construct, pos, s.Kind+" on storage the analysis gave no class to: not provably freshly allocated", "operand "+s.Base.Name()+" : "+s.Base.Type().String())
+				}
 			case eng.Owned:
 				c.R.Violate("OWN-1", construct, pos, s.Kind+" writes storage that may belong to an existing mesh: "+s.Why, "operand "+s.Base.Name()+" : "+s.Base.Type().String())
 			default:
